@@ -526,6 +526,7 @@ def op_itemgetter(m, args, kw, node):
 def np_random_choice(m, args, kw, node):
     a = m.force(args[0], node)
     m.assumption_notes.add("ambient:numpy.random.choice -- reads the process-global generator")
+    m.path_ambient.append("numpy.random.choice")
     if isinstance(a, (int, Sym)):
         n_t = m.z(a, "int")
         r = m.fresh_scalar("int", "np.random.choice")
@@ -655,6 +656,7 @@ def np_random_randint(m, args, kw, node):
     if hi is None:
         lo, hi = 0, lo
     m.assumption_notes.add("ambient:numpy.random.randint -- reads the process-global generator")
+    m.path_ambient.append("numpy.random.randint")
     lo_t, hi_t = m.z(m.force(lo), "int"), m.z(m.force(hi), "int")
     if m.branch(lo_t >= hi_t, node):
         raise PyRaise("ValueError", node)
@@ -705,3 +707,12 @@ def np_log1p(m, args, kw, node):
 @ext("numpy.expm1", "A-TRANSC: expm1(x) == exp(x) - 1")
 def np_expm1(m, args, kw, node):
     return m.binop(ast.Sub(), EXTERNAL["numpy.exp"](m, [args[0]], {}, node), 1, node)
+
+
+@ext("numpy.random.RandomState", "a private generator; its stream is determined by the seed (uninterpreted)")
+def np_randomstate(m, args, kw, node):
+    seed = args[0] if args else kw.get("seed")
+    return ExtObj("rng", {"seed": m.force(seed, node) if seed is not None else None})
+
+
+EXTERNAL["numpy.random.mtrand.RandomState"] = np_randomstate
